@@ -58,6 +58,9 @@ func parserCfg(c *Ctx) symx.Config {
 	cfg := symx.DefaultConfig()
 	cfg.ValidateEvery = 50
 	cfg.MaxPaths = 60000
+	if !c.Quick() {
+		cfg.MaxPaths = 400000
+	}
 	return cfg
 }
 
@@ -289,9 +292,19 @@ func init() {
 		return parserFamily(c, ""), &GramSpec{
 			Variants: []string{"d"},
 			Entries: func(gg *GenGrammar) []EntrySpec {
-				return []EntrySpec{{Name: "C06", Params: "n int", Body: "hl.C06(G, vd.New, n, NSW)"}}
+				return []EntrySpec{{Name: "C06", Params: "n int", Body: "hl.C06(G, vd.New, n, NSW)"},
+					{Name: "C06Reuse", Params: "n1, n2 int", Body: "hl.C06Reuse(G, vd.New, n1, n2, NSW)"}}
 			},
-			Jobs:              func(gg *GenGrammar) []*Job { return lenJobs("C06", nFor(c, gg, N)) },
+			Jobs: func(gg *GenGrammar) []*Job {
+				jobs := lenJobs("C06", nFor(c, gg, N))
+				// memo on/off on a reused parser: the curated shapes and every sixth other grammar
+				if strings.HasPrefix(gg.G.Tag, "shape/") || gg.Idx%6 == 0 {
+					for _, ns := range [][2]int{{3, 3}, {3, 2}, {2, 3}, {1, 3}} {
+						jobs = append(jobs, &Job{Entry: "C06Reuse", Args: []int{ns[0], ns[1]}})
+					}
+				}
+				return jobs
+			},
 			LongJobs:          stdLong(c, "C06", 0),
 			BrokenIsViolation: true, ValidateEveryGrammar: validateEvery(c), Cfg: parserCfg(c),
 		}
